@@ -121,7 +121,79 @@ def judge(run, scn, meta, res, section='table'):
     run.nontriv((meta['dk'], meta['pk'], meta['ow'], meta['sel'], meta['where'], o['exit'] != 0))
 
 
+def same_destination(rng):
+    """several entries trashed from the SAME path, more than one of them selected in one reply: the first restore creates the
+    destination, every later one must be refused (no --overwrite) and stay whole in the trash"""
+    scns, metas = [], []
+    for where, pks, reply in itertools.product(('home', 'vol'), (('f', 'f'), ('f', 'd'), ('d', 'f'), ('l', 'f'), ('f', 'f', 'f')),
+                                               ('0,1', '1,0', '0-1', '1-0', '0,1,0', '0-2', '2,0')):
+        if ('2' in reply) != (len(pks) == 3):
+            continue
+        home = '/home/u'
+        if where == 'home':
+            td, dest, pathv = home + '/.local/share/Trash', home + '/work/same', home + '/work/same'
+        else:
+            td, dest, pathv = '/vol1/.Trash-1000', '/vol1/work/same', 'work/same'
+        nodes = scen.canary() + [['d', home, 0o755], ['d', '/vol1', 0o755], ['d', '/vol1/work', 0o755], ['d', home + '/work', 0o755]]
+        names = []
+        for i, pk in enumerate(pks):
+            nm = 'same' if i == 0 else 'same_%d' % i
+            nodes += scen.entry(td, nm, pathv, '2024-01-0%dT00:00:00' % (i + 1), pk, data=('copy %d' % i if pk == 'f' else None))
+            names.append(nm)                      # listing order (date sort) = names order
+        scn = {'tree': nodes, 'mounts': ['/vol1'], 'cwd': '/', 'uid': 1000, 'env': {'HOME': home, 'TRASH_VOLUMES': '/:/vol1'},
+               'steps': [{'cmd': 'restore', 'argv': ['/'], 'stdin': reply + '\n'}]}
+        scns.append(scn)
+        metas.append({'twice': True, 'ow': False, 'td': td, 'dest': dest, 'names': names, 'reply': reply, 'where': where, 'pks': pks})
+    return scns, metas
+
+
+def order_of(reply):
+    out = []
+    for part in reply.split(','):
+        if '-' in part:
+            a, b = part.split('-')
+            out += list(range(int(a), int(b) + 1))
+        else:
+            out.append(int(part))
+    return out
+
+
+def judge_same(run, scn, meta, res, section='same-destination'):
+    before, o = res['before'], res['steps'][0]
+    after = o['after']
+    case = {'scenario': scn, 'meta': meta, 'exit': o['exit'], 'stderr': o['stderr'][-400:], 'stdout': o['stdout'][-300:]}
+    run.count(section)
+    eb, ea = engine.entries_of(before, meta['td']), engine.entries_of(after, meta['td'])
+    sel = order_of(meta['reply'])
+    first = meta['names'][sel[0]] if sel else None
+    run.nontriv(('same', meta['where'], meta['pks'], meta['reply'], o['exit'] != 0))
+    if not sel:
+        return                                    # '1-0' is an empty range: nothing selected
+    later = [meta['names'][i] for i in sel[1:]]
+    dsub = sandbox.subtree(after, meta['dest'])
+    if engine.strip_mtime(dsub) != engine.strip_mtime(eb[first]['payload']):
+        run.fail('oracle', 'the destination is not the entry restored first: a later entry of the same reply replaced it', case,
+                 key='same-destination-clobbered', section=section)
+    if len(sel) > 1:
+        nxt = later[0]
+        if nxt != first and (ea.get(nxt, {}).get('payload') != eb[nxt]['payload'] or ea.get(nxt, {}).get('info') != eb[nxt]['info']):
+            run.fail('oracle', 'an entry whose destination had just been created by the same run did not stay whole in the trash', case,
+                     key='same-destination-entry-lost', section=section)
+        if o['exit'] == 0 and nxt != first:
+            run.fail('oracle', 'restoring onto the destination created a moment ago was not refused', case, key='same-destination-not-refused',
+                     section=section)
+
+
 def run(run, thorough):
+    s2, m2 = same_destination(run.rng)
+    out2 = engine.run_all(run, 'restore-same', s2)
+    by2 = {id(s): m for s, m in zip(s2, m2)}
+    jobs2 = []
+    for scn, res in out2:
+        judge_same(run, scn, by2[id(scn)], res)
+        jobs2.append(('refuse', 'b0', res['steps'][0], {'scenario': scn}))
+    engine.run_monitors(run, 'refuse-monitor-same', jobs2, 'the refuse monitor (Coq, C06) rejects the implementation trace: a move onto a '
+                        'destination that was not probed absent', 'move-onto-existing')
     scns, metas = table(run.rng, thorough)
     out = engine.run_all(run, 'restore', scns)
     by_id = {id(s): m for s, m in zip(scns, metas)}
@@ -147,6 +219,8 @@ def replay(run, payload):
     print('trash-restore', scn['steps'][0]['argv'], repr(scn['steps'][0].get('stdin')), 'exit', o['exit'])
     print(' stdout:', esc(o['stdout'][:400]))
     print(' stderr:', esc(o['stderr'][:400]))
-    if meta:
+    if meta and meta.get('twice'):
+        judge_same(run, scn, meta, res)
+    elif meta:
         judge(run, scn, meta, res)
         engine.run_monitors(run, 'refuse-monitor', [('refuse', 'b1' if meta['ow'] else 'b0', o, {'scenario': scn})], 'refuse monitor rejects', 'move-onto-existing')
